@@ -18,7 +18,7 @@ func init() {
 	ev.Register(&ev.Check{
 		ID:             "C02",
 		Level:          "exploration",
-		Rule:           "for each scalar kind: ALL rule sets of <= 5 (thorough 7) distinct rule names from the applicable pool (min,max,exclusiveMinimum,exclusiveMaximum,precision,type,nullable,const,enum | minLength,maxLength,regex,type incl. formats,...) x ALL parameter variants from boundary sets (bounds {-1,0,0.5,1,10}, lengths {0,1,2}, 3 patterns, true/false) x every example candidate the reference accepts, kept when Check accepts; each validated against ALL probe values on/just inside/just outside every bound (33 numerals + alternative spellings, 20 strings incl. escapes, format grids: dates over 5 years x months 00-13 x days 00-32, datetime field boundaries, uuid shapes, curated email/uri lists) and every other kind. Oracle: reference rule semantics (math/big, regexp, calendar), three-valued. Non-trivial = distinct (rule set, example, probe) with decided reference.",
+		Rule:           "for each scalar kind: ALL rule sets of <= 5 (thorough 7) distinct rule names from the applicable pool (min,max,exclusiveMinimum,exclusiveMaximum,precision,type,nullable,const,enum | minLength,maxLength,regex,type incl. formats,...) x ALL parameter variants from boundary sets (bounds {-1,0,0.5,1,10}, lengths {0,1,2}, 3 patterns, true/false) x every example candidate the reference accepts, kept when Check accepts; each validated against ALL probe values on/just inside/just outside every bound (33 numerals + alternative spellings, 20 strings incl. escapes, format grids: dates over 5 years x months 00-13 x days 00-32, datetime field boundaries, uuid shapes, curated email/uri lists) and every other kind. Second family: every ordered pair of C04's annotated scalar slots as sibling properties and as sibling array items, validated against every combination of (good | each rule-breaking value) for both siblings: the verdict must be the conjunction the reference computes (validator state must not leak between siblings). Oracle: reference rule semantics (math/big, regexp, calendar), three-valued. Non-trivial = distinct (rule set, example, probe) with decided reference.",
 		Run:            run,
 		Replay:         replay,
 		QuickBudget:    80 * time.Second,
@@ -115,7 +115,9 @@ var strExamples = []string{`""`, `"a"`, `"ab"`, `"abc"`, `"b"`, `"bc"`, `"a@b.cc
 
 var numProbes = []string{"-2", "-1.1", "-1.01", "-1", "-0.99", "-0.9", "-0.1", "-0.01", "0", "0.01", "0.1", "0.4", "0.49", "0.5", "0.51", "0.6", "0.9", "0.99", "1", "1.01", "1.1", "1.5", "2", "9", "9.9", "9.99", "10", "10.01", "10.1", "11", "0.125", "1.25", "1.255",
 	"1.0", "1e0", "10e-1", "0.5e1", "-0.0", "5e-1", "1E1", "0.50", "100e-1"}
-var strProbes = []string{`""`, `"a"`, `"ab"`, `"abc"`, `"abcd"`, `"b"`, `"ba"`, `"bc"`, `"xbc"`, `"A"`, `"\n"`, `"\""`, `"a"`, `"aXc"`, `"é"`, `"a\nc"`, `"1"`, `"true"`, `"null"`, `"a b"`, `"\\"`, `"\/"`}
+var strProbes = []string{`""`, `"a"`, `"ab"`, `"abc"`, `"abcd"`, `"b"`, `"ba"`, `"bc"`, `"xbc"`, `"A"`, `"\n"`, `"\""`, `"a"`, `"aXc"`, `"é"`, `"a\nc"`, `"1"`, `"true"`, `"null"`, `"a b"`, `"\\"`, `"\/"`,
+	// an unpaired surrogate escape followed by an ordinary \u escape: the second escape is a character of its own
+	`"\ud83d\u0062"`, `"\udc00\u0061"`, `"a\ud83d\u0062"`, `"\ud83d\ude00b"`, `"\u0061\u0062"`}
 var otherProbes = []*gen.JV{gen.JNull(), gen.JBool("true"), gen.JBool("false"), gen.JObj(), gen.JArr(), gen.JArr(gen.JInt("1")), gen.JObj(gen.Member{Key: "a", Val: gen.JInt("1")})}
 
 func numJV(l string) *gen.JV {
@@ -344,6 +346,7 @@ func run(c *ev.Ctx) {
 			}
 		})
 	}
+	siblings(c)
 }
 
 func replay(raw stdjson.RawMessage) (bool, string) {
